@@ -56,6 +56,17 @@ public:
 	// Get static instance of factory register
 	static NiFactoryRegister& Get();
 
+#ifdef NIFLY_VERIF
+	// Names of all registered block types (verification hook)
+	std::vector<std::string> GetRegisteredNames() const {
+		std::vector<std::string> names;
+		for (auto& r : m_registrations)
+			names.push_back(r.first);
+		std::sort(names.begin(), names.end());
+		return names;
+	}
+#endif
+
 protected:
 	std::unordered_map<std::string, std::unique_ptr<NiFactory>> m_registrations;
 };
